@@ -46,7 +46,8 @@ def main():
         json.dump(meta, open(meta_p, "w"), indent=1)
         lr = meta["last_run"]
         print(os.path.basename(d), "caught" if lr.get("caught") else "MISSED" if lr.get("applied") else "patch-failed")
-    # leave the build products in step with the restored tree
+    # the runs above rewrote evidence/*.json with numbers from PATCHED trees: put the committed ones back
+    sh(["git", "-C", ROOT, "checkout", "--", "evidence"])
     return 0
 
 if __name__ == "__main__":
